@@ -87,11 +87,55 @@ namespace c09
         template <class T> static void get(R &r, T &v) { v = r.template deserialize<T>(); }
     };
 
-    Api *make_api2()
+    // the same API through its free functions: igris::serialize(obj, storage) appends to a caller-owned storage,
+    // igris::deserialize<T>(storage) reads the next value from a caller-owned reader storage (its cursor must advance),
+    // igris::serialize(obj) / igris::deserialize<T>(string) are the one-shot forms
+    struct P2b : P2
     {
-        auto *a = new ApiImpl<P2>();
+        static const char *apiname() { return "serializer-free-functions"; }
+        struct W
+        {
+            igris::string_storage st;
+        };
+        struct WHolder
+        {
+            W wr;
+            W &w() { return wr; }
+            const std::string &bytes() { return wr.st.storage(); }
+        };
+        struct R
+        {
+            size_t n;
+            igris::deserialize_buffer_storage st;
+            R(const char *p, size_t n) : n(n), st(igris::buffer(p, n)) {}
+        };
+        struct RHolder
+        {
+            R rd;
+            RHolder(const char *p, size_t n) : rd(p, n) {}
+            R &r() { return rd; }
+            size_t pos() { return rd.n - (size_t)rd.st.avail(); }
+        };
+        template <class T> static void put(W &w, const T &v)
+        {
+            size_t before = w.st.storage().size();
+            igris::serialize(v, w.st);
+            std::string one = igris::serialize(v);
+            const std::string &all = w.st.storage();
+            if (all.size() - before != one.size() || memcmp(all.data() + before, one.data(), one.size()) != 0)
+                kit::violate("C09/writers-disagree@serializer", "igris::serialize(obj, storage) appended %zu bytes, igris::serialize(obj) returned %zu bytes for the same value", all.size() - before, one.size());
+        }
+        template <class T> static void get(R &r, T &v) { v = igris::deserialize<T>(r.st); }
+    };
+
+    template <class P> Api *make_api2_with();
+    Api *make_api2() { return make_api2_with<P2>(); }
+    Api *make_api2b() { return make_api2_with<P2b>(); }
+    template <class P> Api *make_api2_with()
+    {
+        auto *a = new ApiImpl<P>();
         auto &t = a->types;
-#define T2(type, depth, nt) t.push_back(make_entry<P2, type>(#type, depth, nt))
+#define T2(type, depth, nt) t.push_back(make_entry<P, type>(#type, depth, nt))
         T2(int8_t, 0, false);
         T2(int16_t, 0, false);
         T2(int32_t, 0, false);
